@@ -361,6 +361,24 @@ class FSec(Family):
         return (t[2], t[5]) if len(t) > 5 else tuple(t[2:])
 
 
+class FSecGuard(FSec):
+    """family f08: the calls of the security API that never reach a cipher (NULL algorithms, every refusal), cases from
+    MC_C19sec_gen, judged by Trace_C19sec with the guard and NULL laws of SecurityApi.tla (C08)"""
+    def __init__(self):
+        FSec.__init__(self, "f08", "C08", "Trace_C19sec", "MC_C19sec_gen")
+
+    def pool(self, c, sd):
+        return _gen(c, sd, "MC_C19sec_gen", "MC_C19sec_gen", workers=2)
+
+    def plan(self, pool, rng, scale, wide=False):
+        by = {}
+        for x in pool:
+            kind = "null" if x["alg"] == 0 and x["bearer"] <= 31 and x["dir"] <= 1 else "refused"
+            by.setdefault((x["op"], kind), []).append(x)
+        if len(by) != 4: raise Infra("MC_C19sec_gen printed %d of the 4 case kinds" % len(by))
+        return [("%s-%s" % k, _pick(rng, by[k], 24 * scale if k[1] == "null" else 40 * scale, lambda x: (x["alg"], x["bearer"], x["dir"]))) for k in sorted(by)]
+
+
 # ------------------------------------------------------------------ C09 IE field accessors
 class F09(Family):
     name, pid, trace, shards, driver = "f09", "C09", "Trace_C09", 4, "ietypes"
@@ -495,7 +513,7 @@ class FMsg(Family):
 def families(with_sec=True, with_ie=True):
     fs = [F17(), F12(), F13(), F15(), F15S(), F16(), F18()]
     if with_sec:
-        fs += [FSec("f06", "C06", "Trace_C06", "MC_C06_gen"), FSec("f07", "C07", "Trace_C07", "MC_C07_gen")]
+        fs += [FSec("f06", "C06", "Trace_C06", "MC_C06_gen"), FSec("f07", "C07", "Trace_C07", "MC_C07_gen"), FSecGuard()]
     if with_ie:
         fs += [F09()]
     return fs + [FMsg()]
